@@ -77,3 +77,51 @@ def f12_query_replacement_char(rec, args):
         return False
     b = blob.lower()
     return "\\ufffd" in b or "xef\\\\xbf\\\\xbd" in b or "%ef%bf%bd" in b
+
+
+_AUTH_SCHEMES = None
+
+
+@predicate
+def f10_authority_scheme_rootless(rec, args):
+    """str(url) is '<scheme>:///<rootless path>' for a uses_netloc scheme and the only re-parse difference is the leading '/'."""
+    global _AUTH_SCHEMES
+    if _AUTH_SCHEMES is None:
+        from urllib.parse import uses_netloc
+        _AUTH_SCHEMES = {s for s in uses_netloc if s}
+    obs = rec.get("observed") or {}
+    s = obs.get("str") if isinstance(obs, dict) else None
+    if not isinstance(s, str):
+        return False
+    m = re.match(r"\A([a-z][a-z0-9+.\-]*):///", s)
+    if not m or m.group(1) not in _AUTH_SCHEMES:
+        return False
+    diff = obs.get("diff")
+    if diff is not None:
+        if set(diff) - {"raw_path"}:
+            return False
+        a, b = diff["raw_path"]
+        return b == "/" + a
+    return True
+
+
+@predicate
+def f11_colon_in_first_segment(rec, args):
+    """scheme-less, authority-less result whose first path segment contains ':'; the re-parse turns it into a scheme."""
+    obs = rec.get("observed") or {}
+    if not isinstance(obs, dict):
+        return False
+    s = obs.get("str")
+    diff = obs.get("diff") or {}
+    if not isinstance(s, str) or "scheme" not in diff or diff["scheme"][0] != "":
+        return False
+    first = re.split(r"[/?#]", s, 1)[0]
+    return ":" in first and not s.startswith("/")
+
+
+@predicate
+def f18_ipvfuture_brackets(rec, args):
+    """constructor input whose host is an IPvFuture literal [v<hex>.<...>] containing ':'."""
+    blob = " ".join(a for a in args if isinstance(a, str))
+    m = re.search(r"\[[vV][0-9A-Fa-f]+\.[^\]]*:[^\]]*\]", blob)
+    return bool(m)
